@@ -141,6 +141,8 @@ def run(check):
     if not check.has_failing():
         merged_part(check, cases)
     if not check.has_failing():
+        folder_part(check)
+    if not check.has_failing():
         same_ident_part(check)
     if not check.has_failing():
         emptied_variants_part(check)
@@ -207,6 +209,59 @@ def cli_part(check, cases):
                                 impl={"rc": r["rc"], "stderr": r["err"][-800:]}, failing_input=True)
             elif r["rc"] not in (0, 1) or r["timed_out"]:
                 pass    # crashes are C07's business
+
+
+def folder_part(check):
+    """folder-output mode keeps one result per crate: an annotated item that cannot be generated is reported (non-zero exit, the
+    diagnostic names its file) whichever crate holds it - the first, a middle or the last one in name order, next to crates
+    without any error, with one or several failing crates -, and without such an item every crate's file lists its items"""
+    BADS = [("u64-field", "#[typeshare]\npub struct Bad { pub counter: u64 }\n"),
+            ("tuple-struct", "#[typeshare]\npub struct Bad(pub String, pub u32);\n"),
+            ("flatten", "#[typeshare]\npub struct Bad { #[serde(flatten)] pub rest: Other, pub a: u8 }\n"),
+            ("tag-without-content", "#[typeshare]\n#[serde(tag = \"t\")]\npub enum Bad { A(u8), B }\n")]
+    names = ["alpha", "beta", "gamma", "omega"]
+    n = 0
+    for ncrates in (2, 3, 4):
+        crates = names[:ncrates]
+        for bad_at in [()] + [(i,) for i in range(ncrates)] + ([(0, ncrates - 1)] if ncrates > 2 else []):
+            lang = LANGS[n % len(LANGS)]
+            kind, bad = BADS[n % len(BADS)]
+            n += 1
+            with Scratch() as sc:
+                for i, cr in enumerate(crates):
+                    text = "#[typeshare]\npub struct Fine%s { pub label: String }\n" % cr.capitalize()
+                    if i in bad_at:
+                        text += "\n" + bad
+                    sc.write("ws/%s/src/lib.rs" % cr, text)
+                os.makedirs(sc.path("out"))
+                r = run_cli(["--lang", lang, "--output-folder", sc.path("out")] + lang_args(lang) + [sc.path("ws")], cwd=sc.dir)
+                written = {f: open(os.path.join(sc.path("out"), f), encoding="utf-8", errors="replace").read()
+                           for f in sorted(os.listdir(sc.path("out")))}
+            check.saw(("folder", lang, ncrates, bad_at, kind), nontrivial=True)
+            check.count("folder-" + ("clean" if not bad_at else "ungeneratable-in-%s" % "+".join(
+                "first" if i == 0 else "last" if i == ncrates - 1 else "middle" for i in bad_at)))
+            if r["timed_out"] or r["rc"] not in (0, 1):
+                continue        # crashes are C07's business
+            case = {"lang": lang, "crates": crates, "ungeneratable_item": bad if bad_at else None,
+                    "in_crates": [crates[i] for i in bad_at], "mode": "--output-folder"}
+            if bad_at:
+                said = r["err"] + r["out"]
+                missing = [crates[i] for i in bad_at if "%s/src/lib.rs" % crates[i] not in said]
+                if r["rc"] == 0 or missing:
+                    check.violation("%s, folder output over the crates %s: the annotated item `Bad` (%s) in %s is neither generated nor "
+                                    "reported (exit status %s%s)" % (lang, crates, kind, [crates[i] for i in bad_at], r["rc"],
+                                                                     ", no diagnostic names " + ", ".join(missing) if missing else ""),
+                                    case=case, impl={"rc": r["rc"], "stderr": r["err"][-1500:], "written": {k: v[-600:] for k, v in written.items()}},
+                                    failing_input=True)
+                    return
+            else:
+                allt = "\n".join(written.values())
+                lost = [cr for cr in crates if "Fine" + cr.capitalize() not in allt]
+                if r["rc"] != 0 or lost:
+                    check.violation("%s, folder output over the crates %s (all generatable): exit status %s, items of %s missing"
+                                    % (lang, crates, r["rc"], lost), case=case,
+                                    impl={"rc": r["rc"], "stderr": r["err"][-1500:], "written": sorted(written)}, failing_input=True)
+                    return
 
 
 def merged_part(check, cases):
